@@ -62,7 +62,8 @@ def run(env, tier, seed, broken=None):
         if len(argv) == 1 and argv[0] in ('{SCRIPT}', 'missing.bn') and (not exists or mkdir or not readable) and (r['status'] == 0 or r['stderr'] == b'' or r['stdout'] != b'') and fname.endswith('.bn'):
             mism.append({'case': {'id': g['id'], 'cli': True, 'argv': argv, 'fname': fname}, 'reason': 'unreadable file: status %s stderr %r' % (r['status'], r['stderr'][:60])})
     # ---- programs of each outcome class x stdin contents
-    stdins = ['', 'a', 'a\n', 'a\nb', '  a  \n\tb\n', 'l1\nl2\nl3\nl4\n', '\n\n', ' \n', 'x y\r\nz\r\n', 'বাংলা ইনপুট\n']
+    stdins = ['', 'a', 'a\n', 'a\nb', '  a  \n\tb\n', 'l1\nl2\nl3\nl4\n', '\n\n', ' \n', 'x y\r\nz\r\n', 'বাংলা ইনপুট\n',
+              'abc\n \t ', ' ', '\t', 'a\n ', '\n ', 'a\n\r', '\r', 'a\r', '\u00a0', 'a\n\u3000']      # last lines of blanks only, without a newline
     progs_ = {
         'clean': '%s "s";\n%s %s();\n%s %s("p> ");\n%s %s("q> ") + "!";\n%s "e";\n' % (PRINT, PRINT, INPUT, PRINT, INPUT, PRINT, INPUT, PRINT),
         'lexerr': '%s "s";\n@\n%s %s();\n' % (PRINT, PRINT, INPUT),
